@@ -1,5 +1,5 @@
 """Texts of the claims made in MANIFEST.json, per property."""
-HOOK_COMMITS = ['78ce041', '65be38d']
+HOOK_COMMITS = ['78ce041', '65be38d', '036e882']
 
 NOT_APPLICABLE = {}
 
@@ -67,5 +67,14 @@ CLAIMS = {
                 'evaluated on consecutive real snapshots.',
         'note': TB + 'as C07.',
         'technique': 'Lean 4 decision-logic theorems per operation + differential correspondence',
+    },
+    'C10': {
+        'text': 'Lean 4 theorems over every schedule (order of completion of outstanding queries) and every answer function: <=3 in flight, nobody '
+                'asked twice, self never asked, at most 2|U|+3 replies (termination), result = first 16 of the sorted list of everything seen, '
+                'cancellation drains without asking; content lookup = first supplied content or not-found. The real lookup is replayed under '
+                'testing/synctest with PRNG-chosen release orders and cancellations and must start exactly the queries the model starts.',
+        'note': TB + 'ContentLookup is modelled at the level of the CAS on the result flag only; its channel/close protocol is exercised by the C08 two-node runs, not by this check. '
+                'Needs GOEXPERIMENT=synctest (go1.24.2, offline).',
+        'technique': 'Lean 4 invariant + well-founded measure proofs + schedule-controlled differential correspondence (synctest)',
     },
 }
